@@ -872,11 +872,15 @@ Definition legacy_to_yang (doc : json) : res json :=
 Definition yang_to_legacy (doc : json) : res json :=
   let* b := convert_back (empty_to_none doc) in
   let* top := as_obj b in
+  (* identities may be namespace-qualified ("gnpy-network-topology:Roadm"): the namespace is removed first, because the
+     back converters select the elements on their type *)
   if jhas K_elements top then
-    let* d := chain topo_back top in Ok (remove_ns "gnpy-network-topology:" (JObj d))
+    let* t := as_obj (remove_ns "gnpy-network-topology:" (JObj top)) in
+    let* d := chain topo_back t in Ok (JObj d)
   else if jhas TOPO_NMSP top then
-    let* inner := jreq TOPO_NMSP top in let* io := as_obj inner in
-    let* d := chain topo_back io in Ok (remove_ns "gnpy-network-topology:" (JObj d))
+    let* inner := jreq TOPO_NMSP top in
+    let* io := as_obj (remove_ns "gnpy-network-topology:" inner) in
+    let* d := chain topo_back io in Ok (JObj d)
   else if any_key EQPT_TYPES top then
     let* d := chain eqpt_back top in Ok (remove_ns "gnpy-eqpt-config:" (JObj d))
   else if jhas EQPT_NMSP top then
